@@ -38,7 +38,11 @@ EID_OF = {P1: '50000001', P2: '50000002', P4: '50000004', P5: '50000001', P6: '0
 MENU = [('pels/T1_50000001', P1), ('pels/T2_50000002', P2), ('pels/T3_50000002.bak', P2), ('pels/.other.txt', b'not a pel\n'),
         ('pels/archive/T4_50000004', P4), ('pels/archive/T5_50000001', P5), ('pels/50000001/inner_50000001', P1),
         ('pels/T6_00500A07', P6)]
-FIXED = {'pels': None, 'out': None, 'sibling_50000001.txt': b'outside the pel directory\n', 'exclude.txt': b'BD8D9999\n'}
+FIXED = {'pels': None, 'out': None, 'sibling_50000001.txt': b'outside the pel directory\n', 'exclude.txt': b'BD8D9999\n',
+         # in the output directory: one output name is taken by a directory (that file cannot be created), and a file sits
+         # under the name a "write to a temporary name first" scheme would pick
+         'out/T2_50000002.50000002.json': None, 'out/T1_50000001.50000001.json.tmp': b'a note, not a temporary file\n',
+         'out/T6_00500A07.00500A07.json~': b'an editor backup\n'}
 
 COMMANDS = [
     ['-l'], ['-l', '-E'], ['-l', '-r', '-e', '.bak'], ['-a'], ['-a', '-E', '-x'], ['-a', '-E', '-r'], ['-n'], ['-n', '-E'],
